@@ -122,6 +122,30 @@ theorem interleaving_deterministic (cfg : Cfg) (org : String → Option (Nat × 
     | move i u => exact ih _ (inv_tstep cfg org s i u hi)
     | tick n => exact ih _ ⟨hi.cache, hi.phases, hi.results⟩
 
+/-- … and every load ends with a document or an error - never with neither (no `(nil, nil)`), whatever the other
+    threads do meanwhile, also when the origin fails for that URL -/
+theorem interleaving_results_total (cfg : Cfg) (org : String → Option (Nat × Policy)) (sched : List Sched) (s : TSt)
+    (hi : Inv cfg org s) : ∀ i u r, (i, u, r) ∈ (trun cfg org s sched).results → (∃ v, r = .doc v) ∨ r = .err := by
+  intro i u r hm
+  have hr := interleaving_deterministic cfg org sched s hi i u r hm
+  subst hr
+  unfold expected
+  split
+  · exact Or.inl ⟨_, rfl⟩
+  · split
+    · exact Or.inl ⟨_, rfl⟩
+    · exact Or.inr rfl
+
+/-- a URL the origin does not serve is an error for every thread that loads it, under every schedule -/
+theorem interleaving_failing_url (cfg : Cfg) (org : String → Option (Nat × Policy)) (sched : List Sched) (s : TSt)
+    (hi : Inv cfg org s) (u : String) (hu : org u = none) (he : cfg.embedded.lookup u = none) :
+    ∀ i r, (i, u, r) ∈ (trun cfg org s sched).results → r = .err := by
+  intro i r hm
+  have hr := interleaving_deterministic cfg org sched s hi i u r hm
+  subst hr
+  unfold expected
+  simp [he, hu]
+
 theorem inv_init (cfg : Cfg) (org : String → Option (Nat × Policy)) (n : Nat) :
     Inv cfg org { phases := List.replicate n .idle } :=
   ⟨by simp, by intro ph hm; simp at hm; rw [hm.2]; simp [GoodPhase], by simp⟩
